@@ -256,7 +256,9 @@ func VerifH_gme() {
 	}
 	dials0 := vDials
 	verifKnown("F-nonatomic", !invalid && vDialFail >= dials0) // a dial of this update is set to fail
+	vCloseErr = verifBool("closeFailsInUpdate")                // closing an obsolete pool may report an error (it is closed nevertheless)
 	uerr := gme.UpdateMultiEndpoints(upd)
+	vCloseErr = false
 	verifReach("updated")
 	verifLockProbe = func() bool {
 		if gme.mu.TryLock() {
